@@ -36,10 +36,12 @@ func checkC15(c *Ctx) {
 	r.Rule("R15.3", "mark-after-success, drop-after-processed, deferred put-back under mu", 1)
 	r.Rule("R15.4", "precision and count: Delete(key of a requested label's list); cnt++ exactly on success", 1)
 	r.Rule("R15.5", "deleter errors other than ErrNotFound are returned", 1)
+	r.Rule("R15.6", "labelling and snapshot: AddLabels appends string(key) to every given label's list of the named cache (installing the per-name map when missing); InvalidateByLabels hands every name's index and deleters to the per-name invalidation and sums the counts", 3)
 	r.NotDecided = []string{"behaviour of user deleters", "interleavings of concurrent invalidations beyond lock coverage"}
 	c.c15Guarded()
 	c.c15RangeShrink()
 	c.c15Protocol()
+	c.c15Labelling()
 }
 
 // indexDerived reports whether v is (part of) the shared index on this path.
@@ -297,7 +299,6 @@ func (c *Ctx) c15Protocol() {
 		r.Unknown("R15.3", name, err.Error())
 		return
 	}
-	_ = e
 	nDel, nErrExit, nMarks := 0, 0, 0
 	for _, p := range paths {
 		idx := map[*pw.Event]int{}
@@ -451,16 +452,109 @@ func (c *Ctx) c15Protocol() {
 				}
 			}
 		}
+		// R15.3: a key is skipped only when it is known to be deleted already; a key not yet deleted reaches the deleters loop
+		smallest := func(target *pw.Event) *iterGroup {
+			var best *iterGroup
+			for _, g := range groups {
+				for _, e2 := range g.events {
+					if e2 == target && (best == nil || len(g.events) < len(best.events)) {
+						best = g
+					}
+				}
+			}
+			return best
+		}
+		for _, ev := range p.Events {
+			if ev.Kind != pw.EvMapLookup || !isDeletedSet(ev.Recv) || len(ev.Results) == 0 {
+				continue
+			}
+			t, known := p.Truth(ev.Results[0])
+			if !known {
+				continue
+			}
+			g := smallest(ev)
+			if g == nil {
+				continue
+			}
+			after := false
+			reached, deletes, puts := false, 0, 0
+			for _, e2 := range g.events {
+				if e2 == ev {
+					after = true
+					continue
+				}
+				if !after {
+					continue
+				}
+				if (e2.Kind == pw.EvLoopBegin || e2.Kind == pw.EvLoopZero) && e2.Recv != nil && e2.Recv.Kind != pw.KMapVal {
+					reached = true // the loop over the deleters of this cache name was reached
+				}
+				if e2.Kind == pw.EvCall && e2.Role == "DeleterDelete" {
+					deletes++
+					reached = true
+				}
+				if e2.Kind == pw.EvMapInsert && e2.Frame != nil && e2.Frame.Deferred {
+					puts++
+				}
+			}
+			deferredLookup := ev.Frame != nil && ev.Frame.Deferred
+			switch {
+			case !deferredLookup && !t && !reached && !errExit:
+				r.Bad("R15.3", name, "key-skipped-undeleted", c.Pos(ev.Pos), "a key that is not yet marked deleted is skipped without being handed to the deleters (it is then dropped from the index although still cached)", shortTrace(p))
+			case !deferredLookup && t && deletes > 0:
+				// double delete is harmless for the property (second Delete reports ErrNotFound); not a violation
+			case deferredLookup && t && puts > 0:
+				r.Bad("R15.3", name, "put-back-of-deleted-key", c.Pos(ev.Pos), "the put-back re-indexes a key that was deleted", shortTrace(p))
+			case deferredLookup && !t && puts == 0:
+				r.Bad("R15.3", name, "undeleted-key-not-put-back", c.Pos(ev.Pos), "the put-back drops a key that was not deleted: it stays cached but is no longer indexed", shortTrace(p))
+			}
+		}
+		// marks use the constant true
+		for _, ev := range p.Events {
+			if ev.Kind == pw.EvMapInsert && isDeletedSet(ev.Recv) {
+				if t, known := p.Truth(ev.Value); !known || !t {
+					r.Bad("R15.3", name, "mark-not-true", c.Pos(ev.Pos), "a processed key is not marked deleted (true)", shortTrace(p))
+				}
+			}
+		}
+		// the put-back may be skipped only when nothing is left to put back
+		hasPutBackIter := false
+		var cutLen *pw.Val
+		for _, ev := range p.Events {
+			if ev.Frame != nil && ev.Frame.Deferred && (ev.Kind == pw.EvMapIter || ev.Kind == pw.EvLoopZero) && ev.Recv == cutRes {
+				hasPutBackIter = true
+			}
+		}
+		for _, v := range e.Vals {
+			if v.Kind == pw.KLen && v.Src == cutRes && cutRes != nil {
+				cutLen = v
+			}
+		}
+		if !hasPutBackIter && cutLen != nil && p.Rel(cutLen, e.IntConst(0))&pw.RGt != 0 {
+			r.Bad("R15.3", name, "put-back-skipped", c.Pos(p.RetPos), "unprocessed cut lists may remain (len(cutKeys) > 0 is possible) but the put-back does not run", shortTrace(p))
+		}
+		// the put-back is registered by this function itself, before any deleter runs
+		ownDefer := -1
+		for i, ev := range p.Events {
+			if ev.Kind == pw.EvDefer && ev.Frame != nil && ev.Frame.Parent == nil {
+				ownDefer = i
+			}
+		}
+		firstDel := -1
+		for i, ev := range p.Events {
+			if ev.Kind == pw.EvCall && ev.Role == "DeleterDelete" && firstDel < 0 {
+				firstDel = i
+			}
+		}
+		if ownDefer < 0 || firstDel >= 0 && ownDefer > firstDel {
+			r.Bad("R15.3", name, "put-back-not-deferred", c.Pos(p.RetPos), "the put-back of unprocessed keys is not registered with defer before the deleters run", shortTrace(p))
+		}
 		// deferred put-back on every exit that still holds cut lists: present as deferred events under mu
 		deferredPut := false
 		for _, ev := range p.Events {
 			if ev.Frame != nil && ev.Frame.Deferred && ev.Kind == pw.EvMapIter && ev.Recv == cutRes {
 				deferredPut = true
 			}
-		}
-		hasDeferReg := len(p.EventsOf(pw.EvDefer)) > 0
-		if !hasDeferReg {
-			r.Bad("R15.3", name, "put-back-not-deferred", c.Pos(p.RetPos), "the put-back of unprocessed keys is not registered with defer before the deleters run", shortTrace(p))
 		}
 		_ = deferredPut
 		// put-back appends under mu and skips deleted keys
@@ -489,5 +583,167 @@ func (c *Ctx) c15Protocol() {
 		if !hasViolation(r.Obls, rule, name) {
 			r.OK(rule, name, fmt.Sprintf("%d paths: %d Delete events, %d error exits, %d marks", len(paths), nDel, nErrExit, nMarks))
 		}
+	}
+}
+
+// c15Labelling: R15.6.
+func (c *Ctx) c15Labelling() {
+	r := c.R
+	for _, m := range []string{"AddLabels", "AddInvalidationLabels"} {
+		name := "InvalidationIndex." + m
+		e, paths, _, err := c.runFunc(name, indexPolicy())
+		if err != nil {
+			r.Unknown("R15.6", name, err.Error())
+			continue
+		}
+		key := keyParamOf(e)
+		nIter := 0
+		bad := false
+		for _, p := range paths {
+			// the per-name map: looked up in labeledKeysByName; when nil a fresh one must be installed under the same name
+			var look *pw.Event
+			var install *pw.Event
+			for _, ev := range p.Events {
+				if ev.Kind == pw.EvMapLookup && ev.Recv != nil && ev.Recv.Kind == pw.KField && ev.Recv.Field != nil && ev.Recv.Field.Name() == "labeledKeysByName" && look == nil {
+					look = ev
+				}
+				if ev.Kind == pw.EvMapInsert && ev.Recv != nil && ev.Recv.Kind == pw.KField && ev.Recv.Field != nil && ev.Recv.Field.Name() == "labeledKeysByName" {
+					install = ev
+				}
+			}
+			if look == nil {
+				r.Bad("R15.6", name, "no-index-lookup", c.Pos(p.RetPos), "labels are added without looking up the cache name's label map", shortTrace(p))
+				bad = true
+				continue
+			}
+			if m == "AddInvalidationLabels" && constString(look.Key) != "default" {
+				r.Bad("R15.6", name, "not-default-cache", c.Pos(look.Pos), "AddInvalidationLabels must label the key in the \"default\" cache", shortTrace(p))
+				bad = true
+			}
+			target := look.Results[0]
+			switch nilTri(p, target) {
+			case triTrue:
+				if install == nil || install.Key != look.Key || install.Value == nil || install.Value.Kind != pw.KAlloc {
+					r.Bad("R15.6", name, "map-not-installed", c.Pos(look.Pos), "the cache name has no label map yet and none is installed: the labels are lost", shortTrace(p))
+					bad = true
+					continue
+				}
+				target = install.Value
+			case triUnknown:
+				r.Bad("R15.6", name, "nil-map-untested", c.Pos(look.Pos), "the looked-up label map is used without testing for nil (write to a nil map panics)", shortTrace(p))
+				bad = true
+				continue
+			}
+			for _, g := range iterations(p) {
+				if !g.inner {
+					continue
+				}
+				nIter++
+				ok := false
+				for _, ev := range g.events {
+					if ev.Kind == pw.EvMapInsert && ev.Recv == target && ev.Key != nil && ev.Key.Kind == pw.KRangeVal && ev.Value != nil && ev.Value.Kind == pw.KAppend && len(ev.Value.Elems) == 1 {
+						el := ev.Value.Elems[0]
+						src := ev.Value.Src
+						if stringOf(el, key) && src != nil && src.Kind == pw.KMapVal && src.Ev != nil && src.Ev.Recv == target && src.Ev.Key == ev.Key {
+							ok = true
+						}
+					}
+				}
+				if !ok {
+					r.Bad("R15.6", name, "label-not-recorded", c.Pos(g.begin.Pos), "an iteration over the given labels does not append string(key) to that label's list of the cache name's map", shortTrace(p))
+					bad = true
+				}
+			}
+		}
+		if nIter == 0 {
+			r.Unknown("R15.6", name, "no label iteration found")
+		} else if !bad {
+			r.OK("R15.6", name, fmt.Sprintf("%d label iterations append string(key) to the right list", nIter))
+		}
+	}
+	// InvalidateByLabels: snapshot and per-name invalidation
+	name := "InvalidationIndex.InvalidateByLabels"
+	_, paths, _, err := c.runFunc(name, pw.Policy{Inline: func(fn *types.Func, d int) bool {
+		return inlineUnexported(fn, d) && fn.Name() != "invalidateByLabels"
+	}, Pure: func(fn *types.Func) bool { return false }})
+	if err != nil {
+		r.Unknown("R15.6", name, err.Error())
+		return
+	}
+	nSnap, nCall := 0, 0
+	bad := false
+	for _, p := range paths {
+		var snapIdx, snapDel *pw.Val
+		for _, g := range iterations(p) {
+			if !g.inner {
+				continue
+			}
+			isSnap := g.begin.Recv != nil && g.begin.Recv.Kind == pw.KField && g.begin.Recv.Field != nil && g.begin.Recv.Field.Name() == "labeledKeysByName"
+			if isSnap {
+				nSnap++
+				okI, okD := false, false
+				for _, ev := range g.events {
+					if ev.Kind != pw.EvMapInsert || ev.Recv == nil || ev.Recv.Kind != pw.KAlloc || ev.Key == nil || ev.Key.Kind != pw.KRangeKey {
+						continue
+					}
+					if ev.Value != nil && ev.Value.Kind == pw.KRangeVal {
+						okI, snapIdx = true, ev.Recv
+					}
+					if ev.Value != nil && ev.Value.Kind == pw.KMapVal && ev.Value.Ev != nil && ev.Value.Ev.Recv != nil && ev.Value.Ev.Recv.Field != nil && ev.Value.Ev.Recv.Field.Name() == "deleters" && ev.Value.Ev.Key == ev.Key {
+						okD, snapDel = true, ev.Recv
+					}
+				}
+				if !okI || !okD {
+					r.Bad("R15.6", name, "incomplete-snapshot", c.Pos(g.begin.Pos), "the snapshot taken under mu does not copy both the label map and the deleters of every cache name (keys would be cut from the index without being deleted)", shortTrace(p))
+					bad = true
+				}
+				continue
+			}
+			for _, ev := range g.events {
+				if ev.Kind == pw.EvCall && ev.Role == "Repo:InvalidationIndex.invalidateByLabels" {
+					nCall++
+					okArgs := len(ev.Args) >= 3 && ev.Args[1].Kind == pw.KRangeVal && ev.Args[2].Kind == pw.KMapVal && ev.Args[2].Ev != nil && ev.Args[2].Ev.Key != nil && ev.Args[2].Ev.Key.Kind == pw.KRangeKey
+					if okArgs && (snapDel != nil && ev.Args[2].Ev.Recv != snapDel) {
+						okArgs = false
+					}
+					if okArgs && snapIdx != nil && g.begin.Recv != snapIdx {
+						okArgs = false
+					}
+					if !okArgs {
+						r.Bad("R15.6", name, "per-name-arguments", c.Pos(ev.Pos), "the per-name invalidation is not given that name's label map and that name's deleters from the snapshot", shortTrace(p))
+						bad = true
+					}
+					// count summed, error returned
+					sum := false
+					for _, e2 := range g.events {
+						if e2.Kind == pw.EvAssign && e2.Value != nil && e2.Value.Kind == pw.KArith && e2.Value.Op == token.ADD && e2.Value.Src2 == ev.Results[0] {
+							sum = true
+						}
+					}
+					if !sum {
+						r.Bad("R15.6", name, "count-not-summed", c.Pos(ev.Pos), "the per-name count is not added to the total", shortTrace(p))
+						bad = true
+					}
+					if n, known := p.NilFact(ev.Results[1]); known && !n {
+						if len(p.Ret) != 2 || p.Ret[1] != ev.Results[1] {
+							r.Bad("R15.6", name, "error-not-returned", c.Pos(ev.Pos), "a per-name invalidation error is not returned", shortTrace(p))
+							bad = true
+						}
+					} else if !known {
+						r.Bad("R15.6", name, "error-unchecked", c.Pos(ev.Pos), "the per-name invalidation error is never tested", shortTrace(p))
+						bad = true
+					}
+				}
+			}
+		}
+		if ev := countersStartAtZero(p); ev != nil {
+			r.Bad("R15.6", name, "counter-not-zero", c.Pos(ev.Pos), "the total does not start at 0", shortTrace(p))
+			bad = true
+		}
+	}
+	if nSnap == 0 || nCall == 0 {
+		r.Unknown("R15.6", name, fmt.Sprintf("vacuous: %d snapshot iterations, %d per-name calls", nSnap, nCall))
+	} else if !bad {
+		r.OK("R15.6", name, fmt.Sprintf("%d snapshot iterations copy index+deleters; %d per-name calls with matching arguments, count summed, error returned", nSnap, nCall))
 	}
 }
